@@ -144,6 +144,29 @@ pub fn exec(op: &str, a: &[Vec<u8>]) -> Out {
             }
             Out::Ok(o)
         }
+        // [64 uniform bytes]: P = from_uniform_bytes (its internal representative generally carries torsion),
+        // D = P - decompress(compress(P)) = the identity element with a torsion representative (3 times in 4):
+        // the group-trait predicates must treat them as the Ristretto elements they are
+        "gp.rs_group" => {
+            let p = RistrettoPoint::from_uniform_bytes(&need!(b64(&a[0])));
+            let pc = need!(p.compress().decompress());
+            let d = p - pc;
+            let mut o = vec![];
+            o.extend_from_slice(&GroupEncoding::to_bytes(&p));
+            o.push(bool::from(Group::is_identity(&p)) as u8);
+            o.extend_from_slice(&GroupEncoding::to_bytes(&d));
+            o.push(bool::from(Group::is_identity(&d)) as u8);
+            o.push(subtle::ConstantTimeEq::ct_eq(&d, &<RistrettoPoint as Group>::identity()).unwrap_u8());
+            o.push((d == <RistrettoPoint as curve25519_dalek::traits::Identity>::identity()) as u8);
+            o.extend_from_slice(&GroupEncoding::to_bytes(&Group::double(&d)));
+            o.push(bool::from(CofactorGroup::is_torsion_free(&d)) as u8);
+            o.push(bool::from(CofactorGroup::is_torsion_free(&p)) as u8);
+            o.extend_from_slice(&GroupEncoding::to_bytes(&CofactorGroup::clear_cofactor(&p)));
+            o.extend_from_slice(&GroupEncoding::to_bytes(&(Group::double(&p) - p - pc)));
+            o.push(bool::from(Group::is_identity(&(Group::double(&p) - p - pc))) as u8);
+            o.push(curve25519_dalek::traits::IsIdentity::is_identity(&d) as u8);
+            Out::Ok(o)
+        }
         // [valid Edwards encoding] -> clear_cofactor, into_subgroup some?, is_torsion_free, double, is_identity
         "gp.cofactor" => {
             let p = need!(pt(&a[0]));
